@@ -17,7 +17,43 @@ def isnan(v):
 
 
 def isnull(v):
+    if hasattr(v, "_vf_isnull"):
+        return v._vf_isnull()          # symbolic cell (see vf/harness/C13.py)
     return v is None or isnan(v)
+
+
+try:
+    from crosshair.tracers import NoTracing as _NoTracing, is_tracing as _is_tracing
+except Exception:  # pragma: no cover
+    import contextlib
+
+    _NoTracing = contextlib.nullcontext
+
+    def _is_tracing():
+        return False
+
+
+def concrete_bool(v):
+    """is v a real Python bool (not a symbolic one)?  (`is` / isinstance would realise or lie)"""
+    if _is_tracing():
+        with _NoTracing():
+            return type(v) is bool
+    return type(v) is bool
+
+
+def _not(v):
+    """logical not that keeps a symbolic bool symbolic"""
+    if concrete_bool(v):
+        return not v
+    return v ^ True
+
+
+def _and(a, b):
+    if concrete_bool(a):
+        return b if a else False
+    if concrete_bool(b):
+        return a if b else False
+    return a & b
 
 
 class MergeError(ValueError):
@@ -72,10 +108,10 @@ class _Random:
         if src is None:
             raise RuntimeError("MiniNP.random.choice without a choice source")
         k = src.pop(0)
-        for i in range(len(v)):
+        for i in range(len(v) - 1):
             if k == i:
                 return v[i]
-        raise RuntimeError("choice index out of range")
+        return v[-1]
 
 
 class MiniNP:
@@ -106,6 +142,8 @@ class MiniNP:
     @staticmethod
     def isfinite(x):
         def fin(v):
+            if hasattr(v, "_vf_isfinite"):
+                return v._vf_isfinite()
             if v is None:
                 raise TypeError("ufunc 'isfinite' not supported for the input types")
             if isinstance(v, float):
@@ -206,15 +244,15 @@ class DataArray:
         return self._map(isnull)
 
     def notnull(self):
-        return self._map(lambda v: not isnull(v))
+        return self._map(lambda v: _not(isnull(v)))
 
     def __invert__(self):
-        return self._map(lambda v: not v)
+        return self._map(_not)
 
     def all(self):
         out = True
         for v in self.cells.values():
-            out = out & v if not isinstance(out, bool) or not isinstance(v, bool) else (out and v)
+            out = _and(out, v)
         return DataArray((), {}, {(): out}, self.name)
 
     def copy(self, deep=True):
@@ -507,7 +545,7 @@ class Dataset:
         return self._map(isnull)
 
     def __invert__(self):
-        return self._map(lambda v: not v)
+        return self._map(_not)
 
     def all(self):
         out = Dataset()
